@@ -569,12 +569,21 @@ func (g *Gen) opMinterBurst() {
 		return
 	}
 	n := 2 + g.rng.Intn(4)
+	// determinism runs: several senders that are owed exactly the same refund (any order taken from a map shows in the ids)
+	same := g.mon != nil && g.mon.prop == "C06" && g.rng.Intn(2) == 0
+	sameFee := int64([]int{10, 100, 460}[g.rng.Intn(3)])
 	for i := 0; i < n; i++ {
 		amt := new(big.Int).Mul(big.NewInt(int64(1000+g.rng.Intn(9000))), big.NewInt(1000000000000000))
 		fee := new(big.Int).Mul(big.NewInt(int64([]int{10, 10, 10, 80, 90, 100, 110, 120, 460}[g.rng.Intn(9)])), big.NewInt(100000000000000))
+		sender := g.pick(g.recips)
+		if same {
+			fee = new(big.Int).Mul(big.NewInt(sameFee), big.NewInt(100000000000000))
+			sender = g.recips[i%len(g.recips)]
+			g.stats["det:minter-senders-owed-equal-refunds"]++
+		}
 		ev := g.nextEvt["minter"]
 		g.nextEvt["minter"]++
-		g.voteAll("minter", fmt.Sprintf("ttc %d %s %s %s %s %s %s %d 0x%s", ev, t.ext, amt, fee, g.pick(g.recips), dst.chain, g.pick(g.recips), g.eventHeight("minter"), g.nextTag()))
+		g.voteAll("minter", fmt.Sprintf("ttc %d %s %s %s %s %s %s %d 0x%s", ev, t.ext, amt, fee, sender, dst.chain, g.pick(g.recips), g.eventHeight("minter"), g.nextTag()))
 	}
 	if g.rng.Intn(2) == 0 {
 		// the batch mixes origins: transfers sent on the hub itself (their fee cannot be refunded to Minter) with
